@@ -106,7 +106,7 @@ func parseLine(l string) (op, bool) {
 	if len(f) == 0 {
 		return op{}, false
 	}
-	want := map[string]int{"EP": 3, "EC": 2, "EV": 6, "EE": 1, "X": 4, "M": 16, "R": 0, "K": 2, "EB": 1, "U": 1, "Q": 4, "F": 5, "XL": 4}
+	want := map[string]int{"EP": 3, "EC": 2, "EV": 6, "EE": 1, "X": 4, "M": 16, "R": 0, "K": 2, "EB": 1, "U": 1, "Q": 4, "F": 5, "XL": 4, "W": 1}
 	n, ok := want[f[0]]
 	if !ok || len(f)-1 != n {
 		return op{}, false
@@ -170,10 +170,12 @@ type node struct {
 	sortErr  bool
 }
 
-func hashOf(s string) common.Hash { return common.BigToHash(bigOf(s)) }
-func hashDec(h common.Hash) string  { return new(big.Int).SetBytes(h[:]).String() }
+func hashOf(s string) common.Hash  { return common.BigToHash(bigOf(s)) }
+func hashDec(h common.Hash) string { return new(big.Int).SetBytes(h[:]).String() }
 
-func newNode() *node {
+func newNode() *node { return newNodeOn(youdb.NewMemDatabase()) }
+
+func newNodeOn(db youdb.Database) *node {
 	initKeys()
 	n := &node{missing: map[common.Hash]bool{}, seats: map[ucon.VoteType]*seat{}}
 	for _, k := range []ucon.VoteType{ucon.Prevote, ucon.Precommit, ucon.NextIndex, ucon.Certificate} {
@@ -208,7 +210,7 @@ func newNode() *node {
 		}
 		return nil
 	}
-	n.d = ucon.NewVerifVoter(youdb.NewMemDatabase(), keys[0], env)
+	n.d = ucon.NewVerifVoter(db, keys[0], env)
 	return n
 }
 
@@ -574,6 +576,7 @@ type gen struct {
 	hashes []uint64
 	T      uint64
 	cert   bool
+	noLoop bool // never deliver a context through the Voter's own event loop (XL)
 }
 
 func (g *gen) add(tag string, a ...string) { g.ops = append(g.ops, op{tag, a}) }
@@ -611,7 +614,7 @@ func (g *gen) ctx(step uint64) {
 		c = 1
 	}
 	tag := "X"
-	if g.r.Chance(3) {
+	if !g.noLoop && g.r.Chance(3) {
 		tag = "XL" // through the Voter's own event loop
 	}
 	g.add(tag, g.round.String(), dec(g.index), dec(step), dec(c))
@@ -1101,6 +1104,8 @@ func run(c *vh.Ctx) error {
 			}
 		}
 	}
+	// write-fault stream: first lives in child processes on LevelDB with a failing Put (fault.go)
+	runFaultStream(c, drv)
 	res.Extra["server_driven_histories"] = nServer
 	res.Extra["server_lowered_round_index_in"] = loweredCases
 	res.Partial = append(res.Partial,
@@ -1127,6 +1132,23 @@ func bucket(n int) string {
 // ---- replay ----------------------------------------------------------------------------------------------------------
 
 func replayWith(drv *vh.Driver, body, comments []string) (bool, string) {
+	if len(body) > 0 && strings.HasPrefix(body[0], "W ") {
+		// write-fault case: "W K" = the K-th db.Put of the first life fails; the first life runs in a child process
+		var ops []op
+		for _, l := range body[1:] {
+			o, ok := parseLine(l)
+			if !ok {
+				return true, "unparsable op line: " + l
+			}
+			ops = append(ops, o)
+		}
+		fv := runFaultCase(drv, ops, int(u(strings.Fields(body[0])[1])))
+		if fv.fails() {
+			_, what := fv.describe()
+			return true, what
+		}
+		return false, fv.summary
+	}
 	var ops []op
 	for _, l := range body {
 		o, ok := parseLine(l)
